@@ -987,8 +987,33 @@ pub fn run(prop: Prop, args: &Args, seed: u64, tier: &str, report: &Report) -> S
                 break;
             }
         }
+        // thorough: every legal move (and the null move where a search may make one) of every legal
+        // three-men position, made and taken back - a finite sub-space enumerated completely
+        if thorough {
+            let mut n = 0u64;
+            three_men(shard, shards, &mut |p: &Pos| {
+                let mut script: Vec<String> = vec![];
+                for m in p.legal_moves() {
+                    script.push(format!("m:{}", m.uci()));
+                    script.push("u".into());
+                }
+                if !p.in_check(p.stm) {
+                    script.push("n".into());
+                    script.push("u".into());
+                }
+                l.feat("three_men_positions_all_moves_round_tripped");
+                walk(&sh, p, &mut rng, 0, 4, &mut l, Some(script));
+                n += 1;
+                if n % 20_000 == 0 {
+                    report.merge_local(&mut l);
+                }
+            });
+        }
         report.merge_local(&mut l);
     });
+    if thorough {
+        report.extra("x_three_men_subspace_exhaustive", J::B(true));
+    }
     if prop == Prop::C02 {
         report.extra("x_ep_conventions_consistent_with_all_observations", J::A(sh.ep.alive_names().iter().map(js).collect()));
         report.extra("x_double_pushes_observed", J::U(sh.ep.double_pushes.load(Ordering::Relaxed)));
